@@ -322,7 +322,7 @@ pub fn prepared(seed: u64) -> Verdict {
         Ok(p) => p,
         Err(err) => return Verdict::viol("setup-err", format!("{:?}", err)),
     };
-    let (_, vk) = MarlinPC::trim(&pp, 2, 0, Some(&[2])).unwrap();
+    let (_, vk) = MarlinPC::trim(&pp, 3, 0, Some(&[2, 1, 3, 1])).unwrap();
     let pvk = PreparedVerifierKey::prepare(&vk.vk);
     let mut cur = vk.vk.g.0;
     if pvk.prepared_g.len() != 255 {
@@ -350,8 +350,14 @@ pub fn prepared(seed: u64) -> Verdict {
     use ark_poly_commit::PCPreparedVerifierKey;
     let mpvk = ark_poly_commit::marlin_pc::PreparedVerifierKey::prepare(&vk);
     if let (Some(p), Some(src)) = (&mpvk.prepared_degree_bounds_and_shift_powers, &vk.degree_bounds_and_shift_powers) {
+        if p.len() != src.len() {
+            return Verdict::viol("prepared-shift", "prepared shift tables and enforced bounds differ in number");
+        }
         for ((d, tab), (d2, g)) in p.iter().zip(src.iter()) {
             let mut cur = g.0;
+            if tab.len() != 255 {
+                return Verdict::viol("prepared-shift", format!("prepared shift table for bound {} has {} entries instead of 255", d, tab.len()));
+            }
             if d != d2 {
                 return Verdict::viol("prepared-shift", "prepared shift table is keyed by another bound");
             }
